@@ -219,8 +219,8 @@ def build_harness(race=False):
         return r.returncode == 0, r.stderr, out
 
 
-def driver_path():
-    return os.path.join(LEAN, ".lake", "build", "bin", "driver")
+def driver_path(target="driver"):
+    return os.path.join(LEAN, ".lake", "build", "bin", target)
 
 
 # ----------------------------------------------------------------------------------------
@@ -394,20 +394,24 @@ def check_property(prop, tier, seed):
             broken.append("leanchecker rejects IpfixModel.Props.%s: %s" % (prop, (r.stdout + r.stderr)[-300:]))
         else:
             notes.append("leanchecker re-checked IpfixModel.Props." + prop)
-    okd, outd = lake_build(["driver"])
+    dtarget = getattr(spec, "driver_target", "driver")
+    okd, outd = lake_build([dtarget])
     if not okd:
         errs = re.findall(r"error: (.*)", outd)
         broken.append("model: the Lean driver does not build: " + "; ".join(errs[:3])[:600])
 
     # 3. harness
-    okh, errh, hbin = build_harness(race=getattr(spec, "race", False))
+    if hasattr(mod, "build_harness"):
+        okh, errh, hbin = mod.build_harness()
+    else:
+        okh, errh, hbin = build_harness(race=getattr(spec, "race", False))
     if not okh:
         broken.append("correspondence: harness does not build against the current tree: " + errh[-600:])
 
     result = {"evaluations": 0, "distinct_nontrivial": 0, "samples": [], "distribution": {}, "disagreements": [],
               "predicate_failures": [], "out_of_domain_disagreements": 0}
     if okh and okd:
-        result = mod.run(Ctx(prop, tier, seed, hbin, driver_path(), workdir))
+        result = mod.run(Ctx(prop, tier, seed, hbin, driver_path(dtarget), workdir))
 
     # 4. verdict
     known = load_known()
@@ -532,8 +536,12 @@ def replay(path):
     rp = json.load(open(path))
     prop = rp["property"]
     mod = importlib.import_module("gen." + prop.lower())
-    okh, errh, hbin = build_harness(race=getattr(mod.SPEC, "race", False))
-    okd, _ = lake_build(["driver"])
+    dtarget = getattr(mod.SPEC, "driver_target", "driver")
+    if hasattr(mod, "build_harness"):
+        okh, errh, hbin = mod.build_harness()
+    else:
+        okh, errh, hbin = build_harness(race=getattr(mod.SPEC, "race", False))
+    okd, _ = lake_build([dtarget])
     if not (okh and okd):
         print("cannot build harness/driver")
         return 2
@@ -541,7 +549,7 @@ def replay(path):
     if isinstance(ops, str):
         ops = [ops]
     impl, _ = run_ops(hbin, ops)
-    model, _ = run_ops(driver_path(), ops)
+    model, _ = run_ops(driver_path(dtarget), ops)
     for o, i, m in zip(ops, impl, model):
         print("op   ", o[:300])
         print("impl ", i[:300])
